@@ -1,4 +1,5 @@
 import SdbModel.Model.Reconciler
+import SdbModel.Generated.RecParams
 
 /-!
 # C16 — Reconciler retry pacing and WaitUntilReconciled contract
@@ -220,5 +221,9 @@ theorem C16_low_watermark_def (r : R) (hpos : ∀ i ∈ r.items, 0 < i.origRev) 
 /-! ## non-vacuity -/
 example : backoff 100 1000 1 = 200 ∧ backoff 100 1000 4 = 1000 := by decide
 example : (({} : R).retryAdd { id := 1, data := 5, kind := .pending, sid := 1, other := 0, rev := 3 } 4 3 false).lowWatermark = 3 := by decide
+
+/-- the structural facts about reconciler/incremental.go and reconciler/retries.go that the model
+    builds in — the backoff formula, its cap and the conditions under which `processRetries` runs a retry — hold of the source as it is today (regenerated by `tools/extract` on every run) -/
+theorem C16_source_facts : Gen.recFacts = Rec.expectedFacts := by decide
 
 end Sdb
